@@ -106,7 +106,7 @@ class Check(object):
 
     # -- finishing ---------------------------------------------------------
     def finish(self):
-        known = [k for k in load_known() if k.get('property') == self.pid]
+        known = [k for k in load_known() if k.get('property') == self.pid or self.pid in k.get('also', [])]
         open_keys = {k['key']: k for k in known if k.get('status', 'open') == 'open'}
         failing = [i for i in self.instances if not i.ok]
         new = [i for i in failing if i.key not in open_keys]
